@@ -440,12 +440,11 @@ class IH5Record(IH5Group):
             raise ValueError(f"Invalid record name: '{record.name}'")
 
         globstr = f"{record.name}*{cls._FILE_EXT}"  # rough wildcard pattern
-        # filter out possible false positives (i.e. foobar* matching foo* as well)
-        return [
-            p
-            for p in record.parent.glob(globstr)
-            if re.match(f"^{record.name}[^{cls._ALLOWED_NAME_CHARS}]", p.name)
-        ]
+        # filter out possible false positives (i.e. foobar* matching foo* as well,
+        # or files like foo_raw.ih5 and foo.bak.ih5 that are no containers of foo)
+        pat = re.escape(record.name)
+        pat += f"({re.escape(cls._PATCH_INFIX)}[^/]*)?{re.escape(cls._FILE_EXT)}"
+        return [p for p in record.parent.glob(globstr) if re.fullmatch(pat, p.name)]
 
     @classmethod
     def list_records(cls, dir: Path) -> List[Path]:
